@@ -531,7 +531,17 @@ func runLocal(r *vt.Run, t vt.TB, s localSpec) {
 		// of them, and the column with all of them, it must take them in
 		// another order as well (SQLite permitting) - whether a constraint is
 		// understood does not depend on the constraint before it
-		if c := tb.Cols[i]; len(c.Cons) >= 2 {
+		orderFree := true
+		for _, k := range tb.Cols[i].Cons {
+			// DEFERRABLE on its own belongs to the REFERENCES clause before it
+			// (SQLite reads it so): moving it changes the meaning, and the
+			// library may well take it only where it means something
+			if u := fold.Upper(k); strings.HasPrefix(u, "DEFERRABLE") || strings.HasPrefix(u, "NOT DEFERRABLE") {
+				orderFree = false
+				r.Count("local:constraint-order-not-free", 1)
+			}
+		}
+		if c := tb.Cols[i]; len(c.Cons) >= 2 && orderFree {
 			rev := c
 			rev.Cons = nil
 			for k := len(c.Cons) - 1; k >= 0; k-- {
